@@ -265,12 +265,55 @@ def gen_decisive_case(rng):
     pol = gen_policy(rng, m, False)
     eps = F(1, 2 ** e)
     o = rng.choice(others)
-    pol["rows"][str(s0)] = [[b, str(eps)], [o, str(1 - eps)]]
-    if undisc:
-        # nobody else may walk into the class: b at s0 is the only entry (other states' transitions never lead there)
-        pass
-    case = {"mdp": m, "policy": pol, "explicit_lists": rng.random() < .3, "family": "decisive-tiny-probability"}
+    where = rng.choice(["policy", "policy", "transition", "initial", "termination"] if undisc else ["policy", "transition"])
+    if where == "policy":
+        pol["rows"][str(s0)] = [[b, str(eps)], [o, str(1 - eps)]]
+    elif where == "transition":
+        # the decisive branch is a transition entry: T(s0, b, .) = eps towards the class (resp. the costly successor),
+        # 1 - eps along the old route; the policy plays b with an ordinary probability
+        old_row = [x for x in gen_mdp_row(rng, m, s0, exclude=(cls if undisc else []))]
+        tgt = cls[0] if undisc else old_row[0][0]
+        alt = old_row[-1][0]
+        if alt == tgt:
+            alt = rng.choice([x for x in range(m["n"]) if x != tgt and (not undisc or x not in cls)] or [x for x in range(m["n"]) if x != tgt])
+        for k in [k for k in m["reward"] if k.startswith("%d,%d," % (s0, b))]:
+            del m["reward"][k]
+        m["trans"]["%d,%d" % (s0, b)] = [[tgt, str(eps)], [alt, str(1 - eps)]]
+        m["reward"]["%d,%d,%d" % (s0, b, tgt)] = str(-rng.randint(1, 3)) if undisc else str(-kk * 2 ** 27)
+        kq = rng.randint(1, 7)
+        pol["rows"][str(s0)] = [[b, str(F(kq, 8))], [o, str(F(8 - kq, 8))]]
+    elif where == "initial":
+        # nobody walks into the class; the initial distribution puts 2^-e on it
+        m["trans"]["%d,%d" % (s0, b)] = [list(x) for x in m["trans"]["%d,%d" % (s0, o)]]
+        for k in [k for k in m["reward"] if k.startswith("%d,%d," % (s0, b))]:
+            del m["reward"][k]
+        m["init"] = [[cls[0], str(eps)], [s0, str(1 - eps)]]
+    else:
+        # the only way out of s0 (towards termination) has probability 2^-27 per step, each step costs 1:
+        # value -1/eps, finite; with the branch dropped s0 would be a closed negative class
+        e = 27
+        eps = F(1, 2 ** e)
+        goal = [x for x in range(m["n"]) if m["absorbing"][x]]
+        tgt = goal[0] if goal else cls[0]
+        for a in range(m["nA"]):
+            for k in [k for k in m["reward"] if k.startswith("%d,%d," % (s0, a))]:
+                del m["reward"][k]
+            m["trans"]["%d,%d" % (s0, a)] = [[tgt, str(eps)], [s0, str(1 - eps)]]
+            m["reward"]["%d,%d,%d" % (s0, a, s0)] = "-1"
+        if not goal:
+            where = "termination-into-class"
+    case = {"mdp": m, "policy": pol, "explicit_lists": rng.random() < .3, "family": "decisive-tiny-probability",
+            "decisive_where": where}
     return finish_case(rng, case)
+
+
+def gen_mdp_row(rng, m, s0, exclude=()):
+    """the positive successors of some action of s0 other than the excluded states (fallback: s0 itself)"""
+    for a in m["actions"][s0]:
+        row = [[ns, p] for ns, p in m["trans"]["%d,%d" % (s0, a)] if F(p) > 0 and ns not in exclude]
+        if row:
+            return row
+    return [[s0, "1"]]
 
 
 def gen_case(rng, tier):
@@ -335,8 +378,62 @@ def gen_case(rng, tier):
     return finish_case(rng, case)
 
 
+def perturbed_mdp(rng, m):
+    """a DIFFERENT problem the same policy can be evaluated on: same state/action ids and available actions, other
+    transitions, rewards, initial distribution (so possibly another reachable set / size), absorbing flags and discount"""
+    und = F(m["gamma"]) >= 1
+    n = m["n"]
+    absorbing = list(m["absorbing"])
+    if rng.random() < .3:
+        x = rng.randrange(n)
+        absorbing[x] = not absorbing[x]
+    trans, reward = {}, {}
+    for s in range(n):
+        for a in m["actions"][s]:
+            succ = rng.sample(range(n), rng.randint(1, min(3, n)))
+            row = [[ns, str(p)] for ns, p in zip(succ, gen_mdp._split_prob(rng, len(succ)))]
+            trans["%d,%d" % (s, a)] = row
+            for ns, p in row:
+                if rng.random() < .8:
+                    r = rng.randint(-4, 0 if und else 4)
+                    if r:
+                        reward["%d,%d,%d" % (s, a, ns)] = str(r)
+    starts = rng.sample(range(n), rng.randint(1, min(2, n)))
+    init = [[x, str(p)] for x, p in zip(starts, gen_mdp._split_prob(rng, len(starts)))]
+    g = "1" if und else rng.choice([x for x in gen_mdp.GAMMAS_DISC if x != m["gamma"]] or gen_mdp.GAMMAS_DISC)
+    return {"n": n, "nA": m["nA"], "actions": [list(a) for a in m["actions"]], "trans": trans, "reward": reward,
+            "absorbing": absorbing, "init": init, "gamma": g}
+
+
+def nondyadic_numbers(rng, m):
+    """transition rows on thirds / fifths / sixths / sevenths / tenths (0.7/0.2/0.1 ...), rewards such as -1/3 and
+    0.1, initial distributions on tenths: float row sums are not exactly 1.0"""
+    for key, row in m["trans"].items():
+        pos = [x for x in row if F(x[1]) > 0]
+        if len(pos) >= 2 and rng.random() < .7:
+            den = rng.choice([d for d in (3, 5, 6, 7, 10) if d >= len(pos)])
+            for x, p in zip(pos, split(rng, len(pos), den)):
+                x[1] = str(p)
+    for key in list(m["reward"]):
+        if rng.random() < .4:
+            m["reward"][key] = str(F(m["reward"][key]) / rng.choice([3, 10, 7]))
+    pos = [x for x in m["init"] if F(x[1]) > 0]
+    if len(pos) >= 2 and rng.random() < .7:
+        for x, p in zip(pos, split(rng, len(pos), 10)):
+            x[1] = str(p)
+
+
 def finish_case(rng, case):
     m = case["mdp"]
+    if rng.random() < .2 and case.get("family") not in ("decisive-tiny-probability", "rounding-watch"):
+        nondyadic_numbers(rng, m)
+        case["nondyadic_mdp"] = True
+    if rng.random() < .25:
+        case["shared_objects"] = True                     # persistent mutable lists / distributions from the callbacks
+    if rng.random() < .2:
+        case["int_inputs"] = True                         # integral rewards / probabilities / discount as Python ints
+    if rng.random() < .3:
+        case["policy"]["dtype"] = rng.choice(["int", "float32"])
     if rng.random() < .4:                                 # label representations (incl. falsy labels "", (), 0.0)
         case["labels"] = {"s": rng.choice(LABEL_KINDS), "a": rng.choice(LABEL_KINDS)}
     if case["policy"]["form"] == "dict":
@@ -349,6 +446,14 @@ def finish_case(rng, case):
             p2["form"] = "tab"
         steps = case.setdefault("reuse", [])
         steps.insert(rng.randint(0, len(steps)), {"other_policy": p2})
+    if case["policy"]["form"] in ("tab", "tab_lists") and rng.random() < .25:
+        # the SAME policy object on a DIFFERENT problem, somewhere in the sequence (results of the first call are
+        # re-read at the very end)
+        steps = case.setdefault("reuse", [])
+        steps.insert(rng.randint(0, len(steps)), {"other_mdp": perturbed_mdp(rng, m),
+                                                   "akeys": [rng.random() for _ in range(m["nA"])]})
+    if rng.random() < .1:
+        case.setdefault("reuse", []).append("fresh")
     return case
 
 
@@ -445,14 +550,32 @@ def fin(x):
     return None if (isinstance(x, str) or x is None) else vlib.frac(x)
 
 
-def tol_term(res):
+def kappa(g, orc):
+    """amplification of rounding errors by the linear solve: 1/(1-gamma), resp. the largest expected absorption time"""
+    if g < 1:
+        return 1 / (1 - g)
+    return max([F(1)] + [abs(x) for x in ((orc or {}).get("tau") or [])])
+
+
+def tol_term(res, g, orc):
+    """checker tolerances.  Old rule: 1e-7 relative to the magnitudes.  Now min(old, 1000 u kappa (=1e-13 kappa)
+    relative to the magnitudes of the terms involved): msdm's measured error is <= ~3 u kappa, so an error of relative
+    size 1e-9 (float32 copies, isclose-rounded inputs) no longer hides behind the slack where kappa is small."""
     vals = [abs(f) for f in map(fin, res["V"]) if f is not None]
     occs = [abs(f) for f in map(fin, res["occ"]) if f is not None]
     sv = max([F(1)] + vals)
     so = max([F(1)] + occs)
-    rel = F(1, 10**7)
-    t = [rel * sv, rel * sv, rel * so, rel * sv, rel * sv * so]
-    return "(mkETols %s)" % " ".join(q(x) for x in t)
+    old = F(1, 10**7)
+    t_old = [old * sv, old * sv, old * so, old * sv, old * sv * so]
+    if orc is None:
+        return "(mkETols %s)" % " ".join(q(x) for x in t_old)
+    n = len(res["V"])
+    rk = min(old, F(1, 10**13) * kappa(g, orc))
+    r1 = F(1, 10**13)
+    rmax = max([F(1)] + [abs(x) for x in orc["rpi"]])
+    sq = max(sv, orc["sar_max"], rmax)
+    t_new = [rk * max(sv, rmax), r1 * sq * n, rk * so, r1 * sv * n, rk * (sv + so * rmax) * n]
+    return "(mkETols %s)" % " ".join(q(min(a, b)) for a, b in zip(t_old, t_new))
 
 
 # ---------------------------------------------------------------------------------------------
@@ -492,6 +615,7 @@ def oracle(P, R, av, absf, ini, g, pi):
     ab = absorbing_vec(P, R, av, absf)
     sar = [[sum(P[s][a][k] * R[s][a][k] for k in range(n)) for a in range(nA)] for s in range(n)]
     rpi = [F(0) if ab[s] else sum(pi[s][a] * sar[s][a] for a in range(nA)) for s in range(n)]
+    sar_max = max([F(0)] + [abs(sar[s][a]) for s in range(n) for a in range(nA) if av[s][a]])
     Ppi = [[F(0) if ab[s] else sum(pi[s][a] * P[s][a][z] for a in range(nA)) for z in range(n)] for s in range(n)]
     I = lambda i, j: F(1) if i == j else F(0)
     if g < 1:
@@ -501,7 +625,7 @@ def oracle(P, R, av, absf, ini, g, pi):
             return None
         Qm = [[(sar[s][a] + g * sum(P[s][a][k] * V[k] for k in range(n))) if av[s][a] else None
                for a in range(nA)] for s in range(n)]
-        return {"ab": ab, "av": av, "V": V, "Q": Qm, "occ": occ, "iv": sum(ini[s] * V[s] for s in range(n)),
+        return {"ab": ab, "av": av, "sar_max": sar_max, "V": V, "Q": Qm, "occ": occ, "iv": sum(ini[s] * V[s] for s in range(n)),
                 "iv2": sum(occ[s] * rpi[s] for s in range(n)), "rpi": rpi}
     # undiscounted: chain analysis by definition (independent of the Warshall model)
     reach = []
@@ -536,7 +660,7 @@ def oracle(P, R, av, absf, ini, g, pi):
                 row.append(sar[s][a] + sum(P[s][a][k] * V[k] for k in range(n) if P[s][a][k] > 0))
         Qm.append(row)
     iv = None if any(ini[s] > 0 and V[s] is None for s in range(n)) else sum(ini[s] * V[s] for s in range(n) if ini[s] > 0)
-    return {"ab": ab, "av": av, "V": V, "Q": Qm, "occ": occ, "iv": iv, "iv2": None, "rpi": rpi, "closed": closed, "neginf": neginf, "tau": tau}
+    return {"ab": ab, "av": av, "sar_max": sar_max, "V": V, "Q": Qm, "occ": occ, "iv": iv, "iv2": None, "rpi": rpi, "closed": closed, "neginf": neginf, "tau": tau}
 
 
 def longest_shortest_path(pi, P, ab):
@@ -564,7 +688,9 @@ def compare(res, orc, g, rel=F(1, 10**5)):
     und = g >= 1
     fv = [abs(x) for x in orc["V"] if x is not None]
     scale = max([F(1)] + fv)
+    rel = min(rel, F(1, 10**11) * kappa(g, orc))      # never looser than 1e-5; ~1e5 u kappa where that is smaller
     tol = rel * scale
+    tolq = rel * max(scale, orc["sar_max"])
 
     def cmp(x, y, what, neg, extra):
         # x reported (json), y exact (None = infinite of sign neg)
@@ -598,7 +724,7 @@ def compare(res, orc, g, rel=F(1, 10**5)):
                 if bad:
                     return dict(clause="wrong-availability-pattern", what="action-value", state_index=s, action_index=a, reported=str(x))
                 continue
-            w = cmp(x, y, "action-value", "-inf", {"state_index": s, "action_index": a})
+            w = cmp(x, y, "action-value", "-inf", {"state_index": s, "action_index": a, "tol": tolq})
             if w:
                 return w
     so = max([F(1)] + [abs(x) for x in orc["occ"] if x is not None])
@@ -626,7 +752,11 @@ def run(ctx):
                           "error_path_cases", "relabelled_cases", "falsy_label_cases", "unsortable_label_cases", "gamma_zero_cases",
                           "gamma_as_int_cases", "large_reward_cases", "tiny_probability_cases", "tiny_negative_reward_cases",
                           "nan_to_zero_in_q_cases", "nan_to_zero_in_initial_value_cases", "all_absorbing_cases", "single_state_cases",
-                          "second_policy_on_used_mdp", "corridor_cases", "long_path_cases", "decisive_tiny_probability_cases", "nondyadic", "neginf_cases", "mixed_finite_and_neginf",
+                          "second_policy_on_used_mdp", "first_result_reread_after_later_calls", "fresh_reconstruction_steps",
+                          "reused_policy_on_other_mdp", "reused_policy_on_other_mdp_of_other_size", "nondyadic_mdp_cases",
+                          "shared_mutable_object_cases", "int_typed_input_cases", "int_or_float32_policy_table_cases",
+                          "n_states_equals_n_actions_cases", "single_action_cases", "decisive_tiny_policy", "decisive_tiny_transition",
+                          "decisive_tiny_initial", "decisive_tiny_termination", "decisive_tiny_termination_into_class", "corridor_cases", "long_path_cases", "decisive_tiny_probability_cases", "nondyadic", "neginf_cases", "mixed_finite_and_neginf",
                           "occinf_cases", "q_absorbing_nonzero_cases", "policy_on_larger_state_list", "permuted_lists",
                           "stochastic_policy_rows", "oracle_agree", "explicit_lists", "zero_prob_entries", "tau_certificates_accepted",
                           "gamma_near_one_cases", "rounding_watch_cases", "multi_step_cases", "reused_policy_evaluations",
@@ -646,18 +776,29 @@ def run(ctx):
                               {"case": case, "raised": res.get("raised")}, found=True)
             continue
         evs = res.get("evals") or [res]
+        if res.get("first_result_changed"):
+            ctx.violation(pre + "first-result-changed-after-later-evaluations", {"case": case}, found=True)
+        cnt["first_result_reread_after_later_calls"] += int(len(evs) > 1)
         for k, ev in enumerate(evs):
             # every evaluation of the (same) policy object is judged on its own: the MDP arrays and the
             # model's policy matrix are built in the index order of the MDP it was evaluated on
             r = dict(res)
             r.pop("evals", None)
             r.update(ev)
-            prek = pre + (("second-policy-on-used-mdp:" if "pol" in ev else "reused-policy-object:") if k > 0 else "")
+            mspec = ev.get("mdp") or case["mdp"]          # a later step may be a different problem
+            g = F(mspec["gamma"])
+            und = g >= 1
+            pre = "C02:%s:%s" % ("undisc" if und else "disc", "rounded-policy-row:" if case["policy"]["nondyadic"] else "")
+            step_kind = "" if k == 0 else ("second-policy-on-used-mdp:" if "pol" in ev else
+                                           "reused-policy-on-other-mdp:" if "mdp" in ev else "reused-policy-object:")
+            prek = pre + step_kind
+            if ev.get("mutated"):
+                ctx.violation("C02:caller-object-mutated:" + "+".join(ev["mutated"]), {"case": case, "step": k, "mutated": ev["mutated"]}, found=True)
             if "error" in ev:
                 ctx.violation(prek + "impl-error:" + ev["error"].split(":")[0], {"case": case, "step": k, "error": ev["error"]}, found=True)
                 continue
             sl, al = r["state_list"], r["action_list"]
-            P, R, av, absf, ini = gen_mdp.arrays(case["mdp"], sl, al)
+            P, R, av, absf, ini = gen_mdp.arrays(mspec, sl, al)
             pterm, pi, table, psl_ids, pal_ids = policy_views(case, r)
             if pterm is None:
                 ctx.violation(prek + "policy-table-lists-differ-from-mdp", {"case": case, "step": k, "psl": r["psl"], "pal": r["pal"]}, found=True)
@@ -709,9 +850,22 @@ def run(ctx):
                                                              for s_ in range(len(sl)) for a_ in range(len(al))))
                     cnt["nan_to_zero_in_initial_value_cases"] += int(any(ini[z] == 0 and r["V"][z] == "-inf" for z in range(len(sl))))
                 cnt["all_absorbing_cases"] += int(all(ab))
+                cnt["nondyadic_mdp_cases"] += int(bool(case.get("nondyadic_mdp")))
+                cnt["shared_mutable_object_cases"] += int(bool(case.get("shared_objects")))
+                cnt["int_typed_input_cases"] += int(bool(case.get("int_inputs")))
+                cnt["int_or_float32_policy_table_cases"] += int(bool(case["policy"].get("dtype")) and case["policy"]["form"] in ("tab", "tab_lists"))
+                cnt["n_states_equals_n_actions_cases"] += int(len(sl) == len(al))
+                cnt["single_action_cases"] += int(len(al) == 1)
+                if case.get("decisive_where"):
+                    cnt["decisive_tiny_" + case["decisive_where"].replace("-", "_")] += 1
                 cnt["single_state_cases"] += int(len(sl) == 1)
             else:
-                if "pol" in ev:
+                if ev is evs[-1] and case.get("reuse") and case["reuse"][-1] == "fresh":
+                    cnt["fresh_reconstruction_steps"] += 1
+                if "mdp" in ev:
+                    cnt["reused_policy_on_other_mdp"] += 1
+                    cnt["reused_policy_on_other_mdp_of_other_size"] += int(len(sl) != len(evs[0]["state_list"]))
+                elif "pol" in ev:
                     cnt["second_policy_on_used_mdp"] += 1
                 else:
                     cnt["reused_policy_evaluations"] += 1
@@ -720,20 +874,19 @@ def run(ctx):
             out = " ".join([coqlist(ext(x) for x in r["V"]), coqlist(coqlist(ext(x) for x in rr) for rr in r["Q"]),
                             coqlist(ext(x) for x in r["occ"]), ext(r["initial_value"])])
             orc = oracle(P, R, av, absf, ini, g, pi)
-            orcs[(i, k)] = (orc, prek, r)
+            orcs[(i, k)] = (orc, prek, r, g)
             tau = ""
             if und:
                 tau = " " + qlist(orc["tau"] if orc and orc.get("tau") else [0] * len(sl))
-            terms.append("%s %s %s %s %s%s" % ("chku" if und else "chkd", mt, pterm, out, tol_term(r), tau))
+            terms.append("%s %s %s %s %s%s" % ("chku" if und else "chkd", mt, pterm, out, tol_term(r, g, orc), tau))
             meta.append((i, k))
     vals = ctx.coq(PRE, terms, shard=25 if tier == "quick" else 100)
     nchk = 0
     distinct = set()
     for (i, k), v in zip(meta, vals):
         case = cases[i]
-        g = F(case["mdp"]["gamma"])
+        orc, pre, res, g = orcs[(i, k)]
         und = g >= 1
-        orc, pre, res = orcs[(i, k)]
         if isinstance(v, vlib.CoqError):
             ctx.violation("C02:coq-evaluation-failed", {"case": case, "step": k, "error": str(v)[:800]}, found=False)
             continue
@@ -755,6 +908,14 @@ def run(ctx):
                               found=False)
         failed = [c for c, okv in zip(names, v) if not okv] if isinstance(v, list) and len(v) == len(names) else ["malformed"]
         why = compare(res, orc, g) if orc is not None else None
+        if orc is not None and why is None:
+            # measured accuracy of msdm's numbers in units of u * kappa * scale (u = 2^-53; kappa = 1/(1-gamma), resp. max tau)
+            kap = (1 / (1 - g)) if not und else max([F(1)] + [abs(x) for x in (orc.get("tau") or [])])
+            fvs = [(fin(x), y) for x, y in zip(res["V"], orc["V"]) if y is not None and fin(x) is not None]
+            scale = max([F(1)] + [abs(y) for _, y in fvs])
+            if fvs:
+                e = max(abs(x - y) for x, y in fvs) / (scale * kap) * 2 ** 53
+                cnt["max_value_error_in_u_kappa"] = max(cnt.get("max_value_error_in_u_kappa", 0), float(e))
         detail = {"case": case, "step": k, "impl": res, "failed_clauses": failed}
         if why:
             detail["failing_clause"] = why
